@@ -71,7 +71,8 @@ AppIn  == {a, IntT(1), Flt(3, -1), Cx("f", <<a>>), EmptyList, Lst(<<a>>), Lst(<<
 AppInQ == {a, Cx("f", <<a>>), EmptyList, Lst(<<a, b>>), Lst(<<a, Lst(<<b>>)>>), Lst(<<a, EmptyList>>),
            X, LstT(<<a>>, Y)}
 AppPriors == {P(b, Lst(<<b, Atom("c")>>), NoT), P(Lst(<<Atom("c"), Lst(<<Atom("d")>>)>>), EmptyList, NoT),
-              P(Z, Lst(<<Lst(<<Atom("d")>>)>>), Atom("c"))}
+              P(Z, Lst(<<Lst(<<Atom("d")>>)>>), Atom("c")), P(Cx("f", <<b>>), LstT(<<a>>, Z), Lst(<<Cx("f", <<a>>)>>)),
+              P(Z, Lst(<<b>>), IntT(7))}
 AppOuts == {O, Lst(<<a, b>>), LstT(<<Z>>, O), Lst(<<a, a, b>>)}
 AppCalls ==
     LET In == IF Thorough THEN AppIn ELSE AppInQ IN
